@@ -10,7 +10,8 @@ CFG = {
             "(a rotating quarter of the 512 configurations in quick, all 512 in thorough) x random kitty keyboard masks (default or 1..31) x session shapes "
             "(start-up+Close; frames, SetAppID with ids incl. the original/empty/';'/non-ASCII, mouse shapes, titles, Suspend/Resume cycles with a cursor request pending, Close, second Close; "
             "between frames also Notify (OSC 9 / OSC 777), ClipboardPush, Bell; Close with the event queue filled to capacity and input pending (F53's region); "
-            "frames then Close triggered by a kill signal on the input goroutine, half of them with 2-9 keys pending (F13's region); Close while suspended; SetAppID then input-goroutine panic in a child process); "
+            "frames then Close triggered by a kill signal on the input goroutine, half of them with 2-9 keys pending (F13's region); Close while suspended; SetAppID then input-goroutine panic in a child process; a real SIGTERM sent by the parent to a child process whose Vaxis has its signal handlers installed "
+            "(with / without in-band resize: setupSignals branches on it) — the process must survive and restore the terminal); "
             "a session is judged only when start-up saw the fake terminal's answers (stored cursor style / app id / capability flags = configured ones; otherwise start-up is repeated, finally `incomplete`); "
             "the oracle compares with the fake terminal's own original cursor style / application id, not with what Vaxis stored; "
             "every frame line is also judged against the hypotheses Op.ok of the session theorem (admissible tokens, no hyperlink left open); "
@@ -39,6 +40,7 @@ CFG = {
                   "Which goroutine runs Close and whether it can block is C10's LTS: since round 3 (F13, F53, F210 repaired in /repo) C10.shutdown_completes / close_completes "
                   "hold with no hypothesis on the queue, the consumer, signals or the calling goroutine, so every exit path reaches its end on every schedule; Props/C04Exit joins the two halves in Lean: exit_path_completes "
                   "(from every invariant state, once the input goroutine has taken its kill-signal arm or caught a panic, every maximal run ends with Close returned, everything done, chQuit closed once) and "
-                  "exit_paths_complete_and_restore (… and what the path writes is what Close writes). Real-time and OS behaviour (signals, console reset) not modelled.",
+                  "exit_paths_complete_and_restore (… and what the path writes is what Close writes). Real-time and OS behaviour (console reset) not modelled; signal delivery through os/signal is exercised by the sigproc child "
+                  "sessions (four capability sets per run), not modelled.",
     "assumptions": ["the fake console answers DA1 at once (Suspend's provoke-a-reply dance terminates)"],
 }
